@@ -182,6 +182,8 @@ def generate(rng, tier: str, index: int) -> dict:
         'msgs': msgs,
         'segs': segs,
         'tail_delay': rng.choice([0.0, 0.001, 0.2]),
+        # `local-as auto`: exabgp answers the peer's OPEN; the size limit has to follow the negotiation all the same
+        'local_auto': rng.chance(0.12),
     }
 
 
@@ -194,7 +196,7 @@ def execute(plan: dict) -> dict:
     ext_local = plan.get('ext_local', ext)
     ext_peer = plan.get('ext_peer', ext)
     neighbor = {
-        'peer_ip': PEER, 'local_ip': LOCAL, 'local_as': 65001, 'peer_as': 65002, 'router_id': LOCAL, 'hold': 180,
+        'peer_ip': PEER, 'local_ip': LOCAL, 'local_as': 'auto' if plan.get('local_auto') else 65001, 'peer_as': 65002, 'router_id': LOCAL, 'hold': 180,
         'families': [(1, 1)], 'caps': {'extended-message': ext_local, 'route-refresh': True},
     }  # fmt: skip
     spk = Speaker(w, 'p1', PEER, 65002, PEER, LOCAL, hold=180, caps=speaker_caps({'asn': 65002, 'extmsg': ext_peer}))
